@@ -342,6 +342,11 @@ def decide_obligation(ob, tier, pool=None):
     if ob.get("paths_truncated"):
         o.result, o.detail = C.UNDECIDED, "path enumeration truncated (more than 4096 decision vectors)"
         return o
+    if ob["name"].startswith("c16_forward_vs_published") or os.environ.get("PV_CANON") == "1":
+        from . import canon
+        o.extra["dag_nodes_before_canonicalisation"] = len(ob["nodes"])
+        o.extra["canonicalisation_rules"] = canon.canonicalise(ob)
+        o.extra["canonicalisation_perturbation"] = "polynomial coefficients and constant exponents rounded to 12 significant digits (pv/canon.py)"
     if os.environ.get("PV_POW_REWRITE") == "1":   # experimental (DESIGN.md 9.4, C16): not used by any registered check
         from . import powrw
         o.extra["power_normalisation_rules"] = powrw.rewrite(ob)
@@ -576,6 +581,26 @@ def decide_obligation(ob, tier, pool=None):
             results[gname] = ("undecided", f"solver answered '{unk[0][0]}' on {len(unk)} path(s) within {cap}s", None)
         else:
             results[gname] = ("pass", "", None)
+    # Goals the solver left open (cap hit, or a model that did not replay): look for a counterexample by running the real code
+    # natively at the reachability sample points. This can only turn "undecided" into a replayed VIOLATION (same acceptance
+    # rule as for solver models: the goal must fail at 0.9 x tolerance in f64 and in f32); it never turns anything into a pass.
+    open_goals = [g for g, v in results.items() if v[0] in ("undecided", "not-reproduced") and not g.startswith("defined_")]
+    if open_goals and ob["vars"] and not ob["mode"].startswith("simd-vs-scalar"):
+        from . import dageval as DE3
+        tried = 0
+        for pt in DE3.sample_points(ob["vars"], 60, C.seed() + 1):
+            if not open_goals:
+                break
+            rp, err = replay(ob["name"], pt)
+            tried += 1
+            if rp is None or not (rp["f64"]["assume_ok"] and rp["f32"]["assume_ok"]):
+                continue
+            for g in list(open_goals):
+                if rp["f64"]["goals"].get(g) is False and rp["f32"]["goals"].get(g) is False:
+                    results[g] = ("violation", f"inputs {dict(zip([x['name'] for x in ob['vars']], pt))} violate goal '{g}' natively in f64 and f32 "
+                                  f"(found by native evaluation at a sample point after the solver left the goal open: {results[g][1][:120]})", pt)
+                    open_goals.remove(g)
+        o.extra["native_counterexample_search_points"] = tried
     # C07: an operation whose operands are computed from the result of an operation already shown undefined is moot (its
     # input is NaN whatever it does); it is neither a pass nor a separate violation
     if ob["prop"] == "C07":
